@@ -1,2 +1,3 @@
 import Obl.Wire
 import Obl.Hop
+import Obl.Proto
